@@ -4,7 +4,7 @@ arithmetic overflow, a reachable panic!, non-termination of a recursion); what t
 unit's own property."""
 from c39_operators import build as _build
 
-PANIC_KINDS = r'precondition not satisfied|overflow|underflow|division|unreachable|panic|decreases|terminat|recursion'
+PANIC_KINDS = r'precondition not (satisfied|met)|index in bounds|overflow|underflow|division|unreachable|panic|decreases|terminat|recursion'
 
 
 def build(manifest):
